@@ -367,14 +367,14 @@ Proof. intros (_ & _ & _ & _ & H). exact H. Qed.
 
 Lemma top_wrap_ft st top p (r : res action) : ft (rstate r) = ft st -> ft (rstate (top_wrap top p r)) = ft st.
 Proof.
-  intros H. destruct r as [a s|e s]; cbn in *; [|exact H]. destruct top; [|exact H].
+  intros H. destruct r as [a s|e s]; cbn [rstate top_wrap] in *; [|exact H]. destruct top; [|exact H].
   destruct (finish_top_spec s a p) as (_ & _ & _ & _ & _ & F & _). congruence.
 Qed.
 
 Lemma user_update_seg_ft st nv groups T force : ft (rstate (user_update_seg st nv groups T force)) = ft st.
 Proof.
   unfold user_update_seg. pose proof (aux_ft _ _ (aux_user_update_seg_core st nv groups T force)) as H.
-  destruct (user_update_seg_core st nv groups T force) as [[a p] s|e s]; cbn in *; [|exact H].
+  destruct (user_update_seg_core st nv groups T force) as [[a p] s|e s]; cbn [rstate] in *; [|exact H].
   destruct (finish_top_spec s a p) as (_ & _ & _ & _ & _ & F & _). congruence.
 Qed.
 
